@@ -26,11 +26,26 @@ declarations:
     declarations:
     - decl: Ring()
     - decl: double inner() const
+  - decl: class Gadget
+    cpp_if: ifdef HAVE_GADGET
+    declarations:
+    - decl: Gadget()
+    - decl: int turn()
   - decl: int count(int n)
   - decl: enum Fill { SOLID = 3, DASHED }
 - decl: const std::string getLabel()
 - decl: void scale(double *v +rank(1), int n +implied(size(v)))
 - decl: enum Color { RED, BLUE }
+- decl: void countTo(int *last +intent(out))
+  fstatements:
+    f:
+      result: num
+      f_module:
+        iso_c_binding: ["C_INT"]
+      declare:
+      - "integer(C_INT) :: num"
+      post_call:
+      - "num = last"
 - decl: int overload(int a)
 - decl: int overload(double a)
 - decl: void exfunc()
